@@ -28,6 +28,11 @@ def run(ctx: Ctx, chk) -> None:
     chk.run_rule(dispatch1, ctx)
     chk.run_rule(lambda c, k: tables.dispatch_total_rule(c, k, "incoming"), ctx)
     chk.run_rule(tables.handler_state_rule, ctx)
+    # "version unknown" is read from gateway.protocol_version by the version-query wrapper: the flag must only be
+    # set by a report that was accepted (same rule as C03 / C05)
+    from .c03 import state1
+
+    chk.run_rule(state1, ctx)
 
 
 def message_term(ctx: Ctx, f: FuncInfo, e: ast.expr):
